@@ -119,6 +119,7 @@ type c19Sys struct {
 	baseT *j.Type
 
 	lastKind, lastName string
+	eager              bool
 }
 
 func c19Res(key string) j.Resource {
@@ -144,6 +145,10 @@ func c19Res(key string) j.Resource {
 			true, "4", map[string]any{"a": "w", "c": true, "extra": []string{"e"}})
 	case "R5conflict":
 		return mk(TypeD{Name: "t", Attrs: []AttrD{{"a", kInt}}, Rels: []RelD{{"one", false, "u", ""}}}, true, "5", map[string]any{"a": 5, "one": []string{"z"}})
+	case "R8cross":
+		// an ATTRIBUTE named like the collection's relationship "many", a RELATIONSHIP named like its
+		// attribute "b" (Go types that cannot be mistaken for one another: int / []string)
+		return mk(TypeD{Name: "t", Attrs: []AttrD{{"many", kInt}}, Rels: []RelD{{"b", false, "u", ""}}}, true, "8", map[string]any{"many": 7, "b": []string{"z"}})
 	case "R0noid":
 		// a resource that has not been given an ID yet
 		return mk(c19Base, true, "", map[string]any{"a": "noid"})
@@ -155,7 +160,7 @@ func c19Res(key string) j.Resource {
 
 func c19Ops() []c19Op {
 	var ops []c19Op
-	for _, k := range []string{"R1", "R2", "R1dup", "R3narrow", "R4wide", "R5conflict", "R6wrapped", "R0noid"} {
+	for _, k := range []string{"R1", "R2", "R1dup", "R3narrow", "R4wide", "R5conflict", "R6wrapped", "R0noid", "R8cross"} {
 		k := k
 		ops = append(ops, c19Op{name: "Add(" + k + ")", do: func(y *c19Sys) error {
 			r := c19Res(k)
@@ -460,12 +465,24 @@ func (y *c19Sys) Apply(op int) (fails []mc.Violation, fatal bool) {
 		fails = append(fails, mc.Violation{Sig: "C19:" + o.name + ":error-mismatch", Msg: complaint.Error()})
 	}
 	y.lastKind, y.lastName = opKind, o.name
+	if y.eager {
+		// second mode: everything is read after every step (reads cost no depth)
+		f, ft := y.final()
+		fails, fatal = append(fails, f...), ft
+	}
 	return
 }
 
 // Final: the collection is read once, after the last operation of the history
 // (reading is an operation of its own: "read everything").
 func (y *c19Sys) Final() (fails []mc.Violation, fatal bool) {
+	if y.eager {
+		return nil, false
+	}
+	return y.final()
+}
+
+func (y *c19Sys) final() (fails []mc.Violation, fatal bool) {
 	var what, msg string
 	if p := Try(func() { what, msg = y.observe() }); p != "" {
 		return []mc.Violation{{Sig: "C19:" + y.lastKind + ":read-panic", Msg: "reading the collection after " + y.lastName + " panicked: " + p}}, true
@@ -476,29 +493,41 @@ func (y *c19Sys) Final() (fails []mc.Violation, fatal bool) {
 	return
 }
 
-func c19BFS(c *Ctx) *mc.BFS {
+func c19BFS(c *Ctx, eager bool) *mc.BFS {
 	depth := 4
 	if Thorough() {
 		depth = 5
 	}
 	ops := c19Ops()
-	return &mc.BFS{Name: "C19/histories", NOps: len(ops), MaxDepth: depth, Workers: c.Workers, R: c.R,
+	name := "C19/histories"
+	if eager {
+		name = "C19/histories-read-after-every-step"
+	}
+	return &mc.BFS{Name: name, NOps: len(ops), MaxDepth: depth, Workers: c.Workers, R: c.R,
 		OpName: func(i int) string { return ops[i].name },
-		New:    func() mc.System { return c19NewSys() }}
+		New:    func() mc.System { y := c19NewSys(); y.eager = eager; return y }}
 }
 
 func init() {
 	Register(&Prop{
 		ID: "C19",
-		Rule: "Engine B: breadth-first search over ALL histories (depth <= 4 quick / 5 thorough) of 26 operations on a real SoftCollection whose type has been set: Add of 8 resources (same type, second id, duplicate id, narrower, wider, conflicting kind/cardinality for the same field name, wrapped struct, empty id), Remove(1|2|9|\"\"), AddAttr(new|duplicate|invalid), AddRel(new|duplicate), SetType(same pointer|new type), Set on the original resources after they were added, reading everything; de-duplicated by deep snapshot. Nothing is read between the operations of a history; after its last step Len, At(-1..Len), Resource(id), GetType and Get of every current field of every stored resource are compared with a list model (order, ids, well-typed values snapshotted at Add, zero for later fields). Every state beyond the initial one is non-trivial",
+		Rule: "Engine B: breadth-first search over ALL histories (depth <= 4 quick / 5 thorough) of 27 operations on a real SoftCollection whose type has been set: Add of 9 resources (same type, second id, duplicate id, narrower, wider, conflicting kind/cardinality for the same field name, attribute named like a relationship of the collection and vice versa, wrapped struct, empty id), Remove(1|2|9|\"\"), AddAttr(new|duplicate|invalid), AddRel(new|duplicate), SetType(same pointer|new type), Set on the original resources after they were added, reading everything; de-duplicated by deep snapshot. Two searches: in the first nothing is read between the operations of a history (reading is an operation), in the second everything is read after every step (reads cost no depth); after the last step Len, At(-1..Len), Resource(id), GetType and Get of every current field of every stored resource are compared with a list model (order, ids, well-typed values snapshotted at Add, zero for later fields). Every state beyond the initial one is non-trivial",
 		Assumptions: []string{"after SetType(new type) values of fields that keep name and kind are expected to be retained (natural reading; only the field set is stated)", "only later Set calls on the original are judged, not in-place mutation of its slices"},
 		Harnesses: []Harness{{Name: "C19/histories",
 			Custom: func(c *Ctx) {
-				if !c19BFS(c).Explore() {
+				if !c19BFS(c, false).Explore() {
 					c.R.Cap("C19 incomplete")
 				}
 				c.R.Sets["nontrivial"] = c.R.Sets["states"]
 			},
-			ReplayCustom: func(c *Ctx, ch []int) []mc.Violation { v, _ := c19BFS(c).ReplayHistory(ch); return v }}},
+			ReplayCustom: func(c *Ctx, ch []int) []mc.Violation { v, _ := c19BFS(c, false).ReplayHistory(ch); return v }},
+			{Name: "C19/histories-read-after-every-step",
+				Custom: func(c *Ctx) {
+					if !c19BFS(c, true).Explore() {
+						c.R.Cap("C19 incomplete")
+					}
+					c.R.Sets["nontrivial"] = c.R.Sets["states"]
+				},
+				ReplayCustom: func(c *Ctx, ch []int) []mc.Violation { v, _ := c19BFS(c, true).ReplayHistory(ch); return v }}},
 	})
 }
